@@ -292,15 +292,17 @@ def plan_c03(tier, seed):
     hs = [H(f'anchor_{c}', domain='input-free', desc=f'{c}(0) within 1e-6 of 0 and (1) within budget of 1') for c in
           ['rec_1886_eotf', 'rec_1886_inverse_eotf', 'rec_470m_oetf', 'rec_470m_inverse_oetf', 'rec_470bg_oetf', 'rec_470bg_inverse_oetf',
            'xvycc_eotf', 'xvycc_inverse_eotf', 'srgb_eotf', 'srgb_inverse_eotf', 'st_2084_inverse_oetf', 'st_2084_oetf']]
-    return {'verus': [('u_dispatch', {})], 'kani': [{'crate_dir': '', 'inject': [KT], 'harnesses': hs}]}
+    return {'verus': [('u_dispatch', {}), ('u_curves', {})], 'kani': [{'crate_dir': '', 'inject': [KT], 'harnesses': hs}]}
 reg('C03', plan=plan_c03, level='proof', min_obligations=100,
-    title='Transfer characteristics: dispatch, aliases, identity, anchors (curve accuracy not decided)',
-    technique='Verus postcondition on the real to_linear/to_gamma match tables over all TransferCharacteristic values (curve named after each characteristic; aliases share one term; Linear returns its input); Kani anchors',
+    title='Transfer characteristics: dispatch, aliases, identity, curve = standard formula over ideal pow/exp/log, anchors (accuracy of the fast approximations not decided)',
+    technique='Verus: postconditions on the real to_linear/to_gamma match tables (curve named after each characteristic; aliases one term; Linear returns its input) and exact-real contracts on all 24 scalar curve functions and 13 constants (piecewise formula of the standard over ideal pow/exp/log10/ln/sqrt); Kani anchors',
     text='Unbounded proof over all 19 TransferCharacteristic values and both directions that to_linear/to_gamma apply the curve NAMED after the characteristic (each image_* stub is keyed by the scalar function its macro invocation names), '
-         'that BT.1886/ST170M/ST240M/BT.2020-10/12 produce the same term (bit-identical results) and that Linear returns the very same Vec (bit-exact identity); bit-precise input-free evaluation of f(0) and f(1) for the 12 powf-based curves. '
-         'NOT decided: |fast curve - defining formula| < 2.5e-4 on [0,1] (needs the accuracy of the degree-5 log2/exp2 polynomials against transcendental functions; no oracle in either verifier).',
+         'that BT.1886/ST170M/ST240M/BT.2020-10/12 produce the same term (bit-identical results) and that Linear returns the very same Vec (bit-exact identity); exact-real proof (U-curves) that each of the 24 scalar curve functions '
+         'IS the piecewise defining formula of its standard (thresholds on the right side, right exponents, scene-referred PQ = inverse EOTF of the BT.2100 OOTF, HLG, log curves with their cut-offs bracketed to 1e-7) over ideal pow/exp/log functions, '
+         'and that the 13 constants equal the standards\' (ST 2084 m2,c1,c3 exactly; others within stated f32-level tolerances; sRGB within 1e-3 of 1.055/0.0031308); bit-precise input-free evaluation of f(0) and f(1) for the 12 powf-based curves. '
+         'NOT decided: |fast curve - ideal curve| < 2.5e-4 on [0,1] (accuracy of the degree-5 log2/exp2 polynomials against transcendental functions; no oracle in either verifier).',
     note='; '.join(DISPATCH_ASSUME[-4:]) + '; the macro-generated flatten loop applies the scalar to every component (bounded Kani harness flatten_len_*). ' + TOOLS,
-    assumptions=DISPATCH_ASSUME[-4:], not_decided=['accuracy of every curve against its defining formula on [0,1] (2.5e-4 / 5.7e-4)', 'constants of the curves against the standards'],
+    assumptions=DISPATCH_ASSUME[-4:], not_decided=['accuracy of the fast powf/expf against the ideal functions (the 2.5e-4 / 5.7e-4 budgets)'],
     design_ref='DESIGN.md §5 C03')
 KX = ('src/rgb_xyb.rs', 'k_rgb_xyb.rs', 'verif_kani_rgb_xyb')
 
@@ -395,10 +397,10 @@ def plan_c10(tier, seed):
             desc='|to_gamma(to_linear(x)) - x| < 2.5e-4 through the real scalar pair') for c in ['bt1886', 'bt470m', 'bt470bg', 'srgb', 'xvycc']]
     if tier == 'thorough':   # PQ (8 powf per round trip) did not finish in 25 min: thorough only, under a per-harness timeout, never an alarm on timeout
         hs.append(H('grid10_pq', bounded='optional: 10-bit code grid, PQ; per-harness timeout', domain='c in 0..=1023', timeout=3600, desc='PQ round trip < 5.7e-4'))
-    return {'kani': [{'crate_dir': '', 'inject': [KT], 'harnesses': hs, 'timeout': 3000}]}
+    return {'verus': [('u_curves', {})], 'kani': [{'crate_dir': '', 'inject': [KT], 'harnesses': hs, 'timeout': 3000}]}
 reg('C10', plan=plan_c10, level='model_checking', min_obligations=0,
     title='Gamma->linear->gamma on the 10-bit grid (bounded stand-in; nothing counted as proved)',
-    technique='bounded Kani/CBMC: the real scalar curve pair composed on every point of the 10-bit code grid (1024 symbolic codes per curve), bit-precise',
+    technique='bounded Kani/CBMC: the real scalar curve pair composed on every point of the 10-bit code grid (bit-precise); plus a Verus exact-real lemma: with an ideal power function the pure power-law pairs compose to the identity for every x >= 0',
     text='BOUNDED stand-in, not a proof of the property: for the curve families built on the repo\'s own powf (BT.1886 family, BT.470M, BT.470BG, sRGB, xvYCC; PQ only in the thorough tier under a timeout) every 10-bit grid value x = c/1023 passes through the real to_linear then to_gamma scalars '
          'and returns within 2.5e-4 (PQ: 5.7e-4). The statement quantifies over all f32 in [0,1]; values between grid points, HLG and the log curves (std ln/log10, which CBMC over-approximates) and Linear (identity, proved under C03) are outside this check.',
     note='bounded: 1024 grid points per curve; ' + BITPRECISE + '. ' + TOOLS,
